@@ -49,6 +49,32 @@ def flow_objective(rep, res, entry, need, probs=None, label="objective", rule="R
                            (f"input `{o}` never reaches the {label} (DATA origins reaching it: {sorted(deps)}): "
                             f"the fit cannot depend on it")) if not ok else f"DATA ⊇ {{{o}}}")
     must_enter(rep, res, entry, need, label, rule)
+    if label == "objective":
+        returns_solution(rep, res, entry, need, rule)
+
+
+def returns_solution(rep, res, entry, need, rule="R-FLOW"):
+    """every exit of the entry returns the optimiser's solution: an exit whose intensities come from somewhere else (a closed-form
+    shortcut) and do not even depend on an input the objective needs (weights, adaptation …) is a different estimator on that path"""
+    for r in res.events("return"):
+        if len(r.path) != 1:
+            continue
+        v = r.d["val"]
+        x = (v.items[0] if v.items else v).flat()
+        if R.sol_ids(x) or x.known:
+            continue
+        have = {o.split("|")[0] for o in x.data}
+        missing = sorted(set(need) - have)
+        if not (have & {"A", "B"}):
+            continue        # not a fit result at all (empty input, constants): other rules
+        if missing:
+            rep.violated(rule, "every exit returns the solution of the stated problem", where=r.loc, construct=r.text()[:80], entry=entry,
+                         config=res.config,
+                         msg=f"on this exit the returned intensities are not the solver's solution and do not depend on {missing}: "
+                             f"a shortcut (closed-form / unconstrained solution) replaces the weighted, bounded problem for the inputs that take it")
+        else:
+            rep.undecided(rule, "every exit returns the solution of the stated problem", where=r.loc, construct=r.text()[:80], entry=entry,
+                          config=res.config, msg="an exit returns intensities that are not solver output")
 
 
 def must_enter(rep, res, entry, origins, label="objective", rule="R-FLOW"):
@@ -214,6 +240,12 @@ def pred_from_X(rep, res, entry, xi=0, pi=1):
               entry=entry, config=res.config,
               msg="the returned prediction is not computed from the returned intensities" if not ok else
               "prediction is a function of the returned solution")
+    okA, how = plain_dep(p.data, "A")
+    if not okA and how:
+        rep.violated("R-TYPESTATE", "the returned prediction is K(Ax + baseline) itself", where=res.fn.loc(),
+                     construct=f"prediction returned by {res.fn.name}", entry=entry, config=res.config,
+                     msg=f"the returned prediction depends on the capture matrix only through a lossy map ({', '.join(how)}: clamp / rounding): it is "
+                         f"not the capture K(Ax + baseline) of the returned intensities wherever the map is active (e.g. negative components)")
 
 
 def sign_attrs(rep, res, entry):
@@ -292,7 +324,7 @@ def guard_under(test, pol, valuation, names, fn_node=None, depth=0):
     bounds use is understood: np.all / np.any / .all() / .any() of the array or of a comparison of it with 0, np.isfinite, not / and /
     or, and local names assigned once from such expressions (dict / conditional expressions count by truthiness)."""
     import ast as _ast
-    elems = {"Z": {0}, "P": {1}, "M": {0, 1}}[valuation]
+    elems = {"Z": {0}, "P": {1}, "M": {0, 1}, "N": {0, -1}}[valuation]
 
     def is_arr(n):
         return isinstance(n, _ast.Name) and (n.id in names or n.id.rstrip("_") in names)
@@ -333,6 +365,8 @@ def guard_under(test, pol, valuation, names, fn_node=None, depth=0):
             return all(r) if n.func.attr == "all" else any(r)
         if isinstance(n, _ast.Dict):
             return bool(n.keys)
+        if isinstance(n, _ast.Call) and isinstance(n.func, _ast.Name) and n.func.id == "bool" and len(n.args) == 1:
+            return ev(n.args[0], depth)
         if isinstance(n, _ast.IfExp):
             t = ev(n.test, depth)
             if t is None:
@@ -349,13 +383,18 @@ def guard_under(test, pol, valuation, names, fn_node=None, depth=0):
     return None if r is None else (r if pol else not r)
 
 
-def must_constraint(rep, res, entry, origin, label, probs=None, rule="R-FLOW"):
+def must_constraint(rep, res, entry, origin, label, probs=None, rule="R-FLOW", local_only=False):
     """Under a configuration in which the bound is finite, a constraint carrying `origin` is added on EVERY path:
     its creation is guarded only by tests the configuration decides (or by complementary guards)."""
     probs = probs if probs is not None else final_problems(res)
     evs = [ev for ev in res.events("cvx_constraint") if origin in R.closure_deps(res, ev.d["val"])]
     if not evs:
         return          # absence is reported by flow_constraints
+    # a constraint that receives the bound only through the SOLUTION of an earlier problem (a tolerance computed from a first-stage fit)
+    # does not enforce the bound
+    direct = [ev for ev in evs if not any(o.startswith("sol#") for o in R.closure_deps(res, ev.d["val"]))]
+    if direct:
+        evs = direct
     import ast as _ast
 
     def skips_only_zero(g, ev):
@@ -375,8 +414,23 @@ def must_constraint(rep, res, entry, origin, label, probs=None, rule="R-FLOW"):
         vids = R.leaf_kinds(res, ev.d["val"])[1]
         return bool(vids) and all((res.heap[v].attrs.get("pos") or res.heap[v].attrs.get("nonneg")) for v in vids) and "lower" in label
 
+    inp = getattr(res, "inputs", {}).get(origin)
+    maybe_neg = inp is not None and inp.sign not in ("NONNEG", "POS") and "lower" in label
+
+    _inside = {}
+
+    def local(g, ev):
+        """with local_only: only the guards inside the function that builds the constraint count (the callers' guards are the path
+        condition under which a fit is requested at all)"""
+        if not local_only:
+            return True
+        ids = _inside.get(id(ev.fn))
+        if ids is None:
+            ids = _inside[id(ev.fn)] = {id(n) for n in _ast.walk(ev.fn.node)}
+        return id(g[2]) in ids
+
     def undecided(ev):
-        return [(g[0], g[1]) for g in ev.guards if len(g) > 3 and not g[3] and not skips_only_zero(g, ev)]
+        return [(g[0], g[1]) for g in ev.guards if len(g) > 3 and not g[3] and local(g, ev) and not (skips_only_zero(g, ev) and not maybe_neg)]
     free = [ev for ev in evs if not undecided(ev)]
     ok = bool(free)
     if not ok:
@@ -390,7 +444,7 @@ def must_constraint(rep, res, entry, origin, label, probs=None, rule="R-FLOW"):
         for val_ in ("Z", "P", "M"):
             best = False
             for ev_ in evs:
-                rs = [guard_under(g[2], g[1], val_, {origin}, ev_.fn.node) for g in ev_.guards if len(g) > 3 and not g[3]]
+                rs = [guard_under(g[2], g[1], val_, {origin}, ev_.fn.node) for g in ev_.guards if len(g) > 3 and not g[3] and local(g, ev_)]
                 r = False if any(x is False for x in rs) else (True if all(x is True for x in rs) else None)
                 best = True if (best is True or r is True) else (None if (best is None or r is None) else False)
             present[val_] = best
@@ -404,6 +458,15 @@ def must_constraint(rep, res, entry, origin, label, probs=None, rule="R-FLOW"):
             ok = False
         else:
             ok = False if all(x is not None for x in present.values()) else ok
+    if maybe_neg and not free:
+        # the bound may have negative entries (no sign attribute then): the constraint must be present for a bound with entries ≤ 0
+        best = False
+        for ev_ in evs:
+            rs = [guard_under(g[2], g[1], "N", {origin}, ev_.fn.node) for g in ev_.guards if len(g) > 3 and not g[3] and local(g, ev_)]
+            r = False if any(x is False for x in rs) else (True if all(x is True for x in rs) else None)
+            best = True if (best is True or r is True) else (None if (best is None or r is None) else False)
+        if best is False:
+            ok = False
     ev = evs[0]
     rep.check(rule, f"{label} enforced on every path", ok, where=ev.loc, construct=ev.text(), entry=entry, config=res.config,
               msg=(f"the only constraint carrying `{origin}` is created under the undecided guard(s) "
@@ -435,6 +498,7 @@ def hygiene(rep, res, entry, shape=True, purity=True, dtype=True, value=True, re
     R.rule_dtype_casts(rep, res, entry)
     R.rule_row_pick(rep, res, entry)
     R.rule_iterator_reuse(rep, res, entry)
+    R.rule_index_space(rep, res, entry)
     if refresh:
         R.rule_every_iteration_solves(rep, res, entry)
     if shape:
